@@ -59,7 +59,7 @@ PLANS["C07"] = {
 }
 
 PLANS["C17"] = {
-    "quick": [J("window21", "p=1,f=1", 30), J("window21wrap", "c=1,f=1", 60), J("window10", "p=1,f=1", 15), J("window3neg", "p=1,f=1", 15), J("c17-longrun", "quick", 120, test="TestE3", shards=4), J("c17-slots", "quick", 120, test="TestE3", shards=1)],
+    "quick": [J("window21", "p=1,f=1", 30), J("window21wrap", "c=1,f=1", 60), J("window10", "p=1,f=1", 15), J("window3neg", "c=1,f=1", 30), J("c17-longrun", "quick", 120, test="TestE3", shards=4), J("c17-slots", "quick", 120, test="TestE3", shards=1)],
     "thorough": [J("window21", "p=2,f=2,c=1,s=1", 400), J("window21wrap", "p=2,f=2,c=1,s=1", 400), J("window10", "p=2,f=2,c=1", 200), J("window3neg", "p=2,f=2,c=1", 200), J("c17-longrun", "thorough", 600, test="TestE3", shards=4), J("c17-slots", "thorough", 120, test="TestE3", shards=1)],
 }
 PLANS["C18"] = {
@@ -87,13 +87,13 @@ PLANS["C20"] = {
 }
 
 PLANS["C14"] = {
-    "quick": [J("c14-classifiers", "quick", 120, test="TestE3"), J("errclass", "p=1,f=1,sel=1", 60), J("reqresp", "p=1,f=1,sel=1", 30), J("hostile", "f=1", 30)],
+    "quick": [J("c14-classifiers", "quick", 120, test="TestE3"), J("errclass", "p=1,f=1,sel=1", 60), J("reqresp", "p=1,f=1,sel=1", 30), J("hostile", "f=1", 30), J("window21", "p=1,f=1", 30), J("window10", "p=1,f=1", 15)],
     "thorough": [J("c14-classifiers", "thorough", 600, test="TestE3"), J("errclass", "p=2,f=2,s=1,sel=1", 600), J("reqresp", "p=2,f=2,sel=1", 400), J("shutdown2", "p=1,f=1,s=1,sel=1", 300)],
 }
 
 PLANS["C16"] = {
-    "quick": [J("damage1", "c=1,s=1", 90)],
-    "thorough": [J("damage1", "c=1,s=2,p=1", 600), J("damage2", "c=1,f=1,s=1", 900)],
+    "quick": [J("damage1", "c=1,s=1", 90), J("damagebulk1", "c=1,f=1", 60), J("damagebulk2", "c=1,f=1", 60)],
+    "thorough": [J("damage1", "c=1,s=2,p=1", 600), J("damage2", "c=1,f=1,s=1", 900), J("damagebulk1", "c=1,f=1,s=1", 300), J("damagebulk2", "c=1,f=1,s=1", 300)],
 }
 
 PLANS["C19"] = {
